@@ -56,7 +56,7 @@ ASSUMPTIONS = [
     "Lua table iteration order = an arbitrary permutation of the entries (nothing else about next() is used)",
     "string comparison is byte order (C locale; the interpreter never calls setlocale)",
     "memoize's argument match (== or shallow_compare_nomt) is an equivalence on the arguments actually passed (hypothesis of C07_memoize_order_free; fails for NaN and for objects with a non-transitive __eq)",
-    "UNDISCHARGED in general: resolve_steps_commute - single steps of Symbol:resolve_type / forced resolution commute (hypothesis of C07_resolve_symbols_order_free_conditional); discharged for the dependency-driven class (C07_resolve_symbols_order_free_dependency_driven), whose link to the real resolve_type is by reading, not by a checked tie; otherwise the differential compilations are the only evidence",
+    "UNDISCHARGED in general: resolve_steps_commute - single steps of Symbol:resolve_type / forced resolution commute (hypothesis of C07_resolve_symbols_order_free_conditional); discharged for the dependency-driven class (C07_resolve_symbols_order_free_dependency_driven_abstract), whose link to the real resolve_type is by reading, not by a checked tie; otherwise the differential compilations are the only evidence",
     "the differential runs sample seeds and layouts; they are tests, not a proof that the whole compiler is order-free",
     "cold vs warm cache directory is compared on the generated C file (nelua --code); the reuse of a cached BINARY within the same second used to serve a stale artefact (two sources with one basename compiled into one --cache-dir within a second ran the first binary twice): fixed in /repo by 8d3d23d, replayed in real time on every run under C08 (known_findings/C08.json 'fixed', history R:0:-:0:0:0:0:0:0 R:0:-:1:0:0:0:0:0)",
 ]
